@@ -194,6 +194,22 @@ struct Gen {
     out.push_back(op);
     for (int i = ph; i < g.k; i += step) note_free(g.s0 + i);
   }
+  // one size class shared by over-aligned blocks (interior pointers: the page's has_aligned flag matters) and plain blocks, over several pages that
+  // fill up, get holes, are picked again by the allocator (queue moves, full <-> not full) and then see frees of the aligned blocks and re-allocation
+  void g_aligned_page() {
+    static const std::vector<size_t> as = { 32, 64, 128, 256, 256, 512, 1024, 4096 }; size_t a = ch.of(as), n = ch.range(1, 3000); size_t cls = mi_good_size(n + a - 1); size_t cap = class_capacity(cls);
+    if (cap < 2 || cap > 600) { g_fill(); return; }
+    size_t k = ch.range(cap, 2 * cap + 2), k2 = ch.range(cap / 4 + 1, 2 * cap), k3 = ch.range(2, cap + 2);
+    if (next_slot + (int)(k + k2 + k3) > NSLOTS || live_bytes + (k + k2 + k3) * cls > 512*MiB) return;
+    int h = pick_heap_api(); int home = h ? h : def; auto fill = [&](size_t kk, const char* f, size_t nn, size_t aa) { int s0 = next_slot; next_slot += (int)kk; Op op("fill"); op.u("s", (uint64_t)s0).u("k", kk).s("f", f).u("n", nn); if (aa > 1) op.u("a", aa); if (h) op.u("h", (uint64_t)h); out.push_back(op);
+      for (size_t i = 0; i < kk; i++) note_alloc(s0 + (int)i, nn, aa, 0, false, home); groups.push_back({ s0, (int)kk, nn }); return s0; };
+    auto holes = [&](int s0, size_t kk, int step, int ph) { out.push_back(Op("rfree").u("s", (uint64_t)s0).u("k", kk).u("step", (uint64_t)step).u("ph", (uint64_t)ph)); for (int i = ph; i < (int)kk; i += step) note_free(s0 + i); };
+    int sa = fill(k, "malloc_aligned", n, a);
+    int step = (int)ch.range(2, 5); holes(sa, k, step, (int)ch.pick((size_t)step));
+    fill(k2, "malloc", cls, 1);
+    int step2 = (int)ch.range(2, 4); holes(sa, k, step2, (int)ch.pick((size_t)step2));   // (slots already freed are skipped by the executor)
+    fill(k3, ch.chance(1, 2) ? "malloc" : "zalloc", cls, 1);
+  }
   void g_churn() { int rounds = (int)ch.range(2, 5); for (int i = 0; i < rounds; i++) { size_t before = groups.size(); g_fill(); if (groups.size() > before) { GGroup g = groups.back(); out.push_back(Op("rfree").u("s", (uint64_t)g.s0).u("k", (uint64_t)g.k).u("step", 1).u("ph", 0)); for (int j = 0; j < g.k; j++) note_free(g.s0 + j); } } }
   void g_talloc() {
     size_t n = ch.chance(1, 2) ? ch.of(g_classes) : ch.range(1, 200*KiB); size_t k = ch.range(1, 40); if (k * n > 32*MiB) k = 1;
@@ -226,7 +242,7 @@ struct Gen {
   void g_collect() { if (forced && ch.chance(1, 3)) { out.push_back(Op("reduce").u("target", ch.chance(1, 2) ? 0 : (size_t)ch.range(1, 3) * 32*MiB)); return; }
     if (ch.chance(1, 2)) out.push_back(Op("collect").u("force", ch.chance(1, 2))); else { std::vector<int> hs; for (int i = 1; i < NHEAPS; i++) if (heaps[i].alive) hs.push_back(i); out.push_back(Op("hcollect").u("h", (uint64_t)ch.of(hs)).u("force", ch.chance(1, 2))); } }
   bool census_ok = false; bool subprocs = false; bool forced = false;
-  void g_visit() { if (census_ok && ch.chance(1, 3)) { out.push_back(Op("census")); return; } std::vector<int> hs; for (int i = 1; i < NHEAPS; i++) if (heaps[i].alive) hs.push_back(i); Op op("visit"); op.u("h", (uint64_t)ch.of(hs)); if (pf.stop_visits && ch.chance(1, 3)) op.u("stop", ch.range(1, 1 + 2 * live_list.size())); out.push_back(op); }
+  void g_visit() { if (census_ok && ch.chance(1, 3)) { Op cen("census"); if (pf.stop_visits && ch.chance(1, 3)) cen.u("astop", ch.range(1, 1 + live_list.size())); out.push_back(cen); return; } std::vector<int> hs; for (int i = 1; i < NHEAPS; i++) if (heaps[i].alive) hs.push_back(i); Op op("visit"); op.u("h", (uint64_t)ch.of(hs)); if (pf.stop_visits && ch.chance(1, 3)) op.u("stop", ch.range(1, 1 + 2 * live_list.size())); out.push_back(op); }
   void g_arena() { for (int i = 0; i < NARENAS; i++) if (!arena_valid[i]) { bool ex = ch.chance(1, 2); out.push_back(Op("arena").u("i", (uint64_t)i).u("size", (size_t)ch.range(2, 6) * 32*MiB).u("commit", ch.chance(1, 4)).u("excl", ex)); arena_valid[i] = true; arena_excl[i] = ex; return; } }
 
   size_t edge_value(int kind) {
@@ -277,7 +293,7 @@ struct Gen {
   void step() {
     std::vector<unsigned> w = { pf.w_alloc, pf.w_free, pf.w_realloc, pf.w_expand, pf.w_fill, pf.w_holes, pf.w_drain, pf.w_tfree, pf.w_talloc, pf.w_heap, pf.w_collect, pf.w_visit, pf.w_verify, pf.w_tick, pf.w_churn, pf.w_edge, pf.w_zchain };
     switch (ch.weighted(w)) {
-      case 0: g_alloc(); break; case 1: g_free(); break; case 2: g_realloc(); break; case 3: g_expand(); break; case 4: g_fill(); break;
+      case 0: g_alloc(); break; case 1: g_free(); break; case 2: g_realloc(); break; case 3: g_expand(); break; case 4: if (pf.p_aligned > 0 && ch.chance(1, 10)) g_aligned_page(); else g_fill(); break;
       case 5: g_range_free("rfree", 0); break; case 6: g_range_free("rfree", 1); break; case 7: g_range_free("tfree", (int)ch.pick(2)); break; case 8: g_talloc(); break;
       case 9: if (pf.arenas && ch.chance(1, 6)) g_arena(); else g_heap(); break; case 10: g_collect(); break; case 11: g_visit(); break; case 12: out.push_back(Op("verify")); break;
       case 13: { static const std::vector<size_t> ms = { 1, 5, 11, 50, 101, 1000, 5000 }; out.push_back(Op("tick").u("ms", ch.of(ms))); break; }
